@@ -746,6 +746,24 @@ func genChain(c *Ctx, t genTopo, id int, start string, depth int, allowSelf bool
 	return out
 }
 
+// oneSourcePerFreshTarget: within one batch the per-connection workers run concurrently; which of two redirects
+// naming the same not-yet-connected address creates the connection (and, for MOVED, patches its slot) depends on
+// their interleaving. Keep the redirects to such an address that come from one source node only.
+func oneSourcePerFreshTarget(is []inj) []inj {
+	src := map[string]string{}
+	var out []inj
+	for _, in := range is {
+		if (in.kind == "mv" || in.kind == "ask") && strings.HasPrefix(in.arg, "10.0.9.") {
+			if s0, ok := src[in.arg]; ok && s0 != in.addr {
+				continue
+			}
+			src[in.arg] = in.addr
+		}
+		out = append(out, in)
+	}
+	return out
+}
+
 func joinInj(is []inj) string {
 	s := make([]string, len(is))
 	for i, in := range is {
@@ -944,6 +962,7 @@ func genEpisode(c *Ctx, idx int, flavor string) []string {
 			for i, sp := range specs {
 				ss[i] = sp.String()
 			}
+			is = oneSourcePerFreshTarget(is)
 			verb, pverb := "multi", "pickmulti"
 			if cache {
 				verb, pverb = "mcache", "pickmcache"
